@@ -47,6 +47,8 @@ type Program struct {
 	repoRoot       string
 	initVals       map[*ssa.Global]func(ex *Exec, st *State) Val
 	staleContracts []string
+	baseLoops   map[string]int // number of loops of each contracted function when the baseline was written
+	loopRemap   map[string]map[int]int // function key -> loop ordinal in the code -> loop ordinal in the contract
 	renames     map[string]map[string]string // function key -> old name -> current name (names.go)
 	renameNotes []string
 	autoDead map[string]bool // dropped inferred invariants: loopKey|label
@@ -388,6 +390,25 @@ func (ex *Exec) entryGlobal(st *State, g *ssa.Global, t types.Type) Val {
 		return VIface{ID: ex.decls.named(name, SInt)}
 	}
 	return ex.freshVal(st, "g_"+g.Name(), t, true)
+}
+
+func (p *Program) loopRemapOf(key string) map[int]int {
+	p.mu.Lock()
+	defer p.mu.Unlock()
+	return p.loopRemap[key]
+}
+
+func (p *Program) setLoopRemap(key string, m map[int]int) {
+	p.mu.Lock()
+	defer p.mu.Unlock()
+	if p.loopRemap == nil {
+		p.loopRemap = map[string]map[int]int{}
+	}
+	if m == nil {
+		delete(p.loopRemap, key)
+	} else {
+		p.loopRemap[key] = m
+	}
 }
 
 func (p *Program) lookupFuncByID(id T) (VFunc, bool) {
